@@ -952,3 +952,167 @@ func checkNoInPlaceInput(c *Ctx, rule string) {
 		c.Unresolved(rule, "planner/differ functions taking slices (found fewer than 10)")
 	}
 }
+
+// ---------------------------------------------------------------------------
+// R02k: the expression normaliser is applied to both sides of a comparison.
+
+const ruleTextMayWrapSymmetric = "the expression normaliser is applied to both sides: in the differ files every ==/!= that has sqlx.MayWrap(…) on one side has sqlx.MayWrap(…) on the other too (a one-sided comparison makes the diff depend on which of two equivalent spellings is `from`: A→B empty, B→A not)"
+
+func checkMayWrapSymmetric(c *Ctx, rule string) {
+	n := 0
+	for _, pp := range []string{pSqlx, pSqlite, pMysql, pPostgres} {
+		c.AllFuncs(false, func(fi *FuncInfo) {
+			if fi.Pkg.PkgPath != pp {
+				return
+			}
+			base := c.Fset.Position(fi.Decl.Pos()).Filename
+			base = base[strings.LastIndex(base, "/")+1:]
+			if !strings.HasPrefix(base, "diff") {
+				return
+			}
+			info := fi.Info()
+			isWrap := func(e ast.Expr) bool {
+				call, ok := ast.Unparen(e).(*ast.CallExpr)
+				return ok && funcIs(calleeOf(info, call), pSqlx, "", "MayWrap")
+			}
+			ast.Inspect(fi.Decl.Body, func(m ast.Node) bool {
+				be, ok := m.(*ast.BinaryExpr)
+				if !ok || (be.Op != token.EQL && be.Op != token.NEQ) {
+					return true
+				}
+				l, r := isWrap(be.X), isWrap(be.Y)
+				if !l && !r {
+					return true
+				}
+				n++
+				c.funcs[fi.Name] = true
+				c.Check(rule, fi.Name+"|"+types.ExprString(be), be.Pos(), l && r, "%s compares %s: only one side is normalised, so two equivalent expressions (with and without the outer parentheses) are equal in one direction of the diff and different in the other", fi.Name, types.ExprString(be))
+				return true
+			})
+		})
+	}
+	if n < 5 {
+		c.Unresolved(rule, "comparisons using sqlx.MayWrap in the differ files (found fewer than 5)")
+	}
+}
+
+// ---------------------------------------------------------------------------
+// R15i: numbers are rendered with all their digits.
+
+const ruleTextFloatDigits = "numbers read from HCL are rendered with all their digits: in the spec conversion packages a *big.Float is turned into text only with Text(format, -1) (shortest exact form); (*big.Float).String() keeps 10 significant digits and silently changes a default such as 3.14159265358979"
+
+func checkFloatDigits(c *Ctx, rule string) {
+	n := 0
+	for _, pp := range []string{pSpecutil, pHCL, pSqlspec, pSqlite, pMysql, pPostgres} {
+		c.AllFuncs(false, func(fi *FuncInfo) {
+			if fi.Pkg.PkgPath != pp {
+				return
+			}
+			info := fi.Info()
+			for _, call := range callsIn(fi.Decl.Body, true) {
+				fn := calleeOf(info, call)
+				if fn == nil || fn.Pkg() == nil || fn.Pkg().Path() != "math/big" || recvTypeName(fn) != "Float" {
+					continue
+				}
+				switch fn.Name() {
+				case "String":
+					n++
+					c.funcs[fi.Name] = true
+					c.Check(rule, fi.Name+"|"+types.ExprString(call), call.Pos(), false, "%s renders a number with (*big.Float).String(), which keeps 10 significant digits: a numeric default with more digits comes back changed after the HCL round trip", fi.Name)
+				case "Text":
+					n++
+					c.funcs[fi.Name] = true
+					ok := len(call.Args) == 2
+					if ok {
+						tv := info.Types[call.Args[1]]
+						ok = tv.Value != nil && tv.Value.String() == "-1"
+					}
+					c.Check(rule, fi.Name+"|"+types.ExprString(call), call.Pos(), ok, "%s renders a number with a fixed number of digits (%s): use precision -1 to keep the value exact", fi.Name, types.ExprString(call))
+				}
+			}
+		})
+	}
+	if n < 2 {
+		c.Unresolved(rule, "renderings of *big.Float in the spec conversion packages (found fewer than 2)")
+	}
+}
+
+// ---------------------------------------------------------------------------
+// R15j: the integer parser only sees integers.
+
+const ruleTextIntParserGuard = "specutil.ColumnDefault: a literal accepted by sqlx.IsLiteralNumber (anything strconv.ParseFloat accepts) reaches strconv.ParseInt only after a guard that sends literals containing a fraction point or an exponent ('.', 'e', 'E') to the float parser; otherwise marshalling a schema with DEFAULT 1e3 fails"
+
+func checkIntParserGuard(c *Ctx, rule string) {
+	fi := c.Func(rule, pSpecutil, "", "ColumnDefault")
+	if fi == nil {
+		return
+	}
+	info := fi.Info()
+	pm := parentMap(fi.Decl.Body)
+	n := 0
+	for _, call := range callsIn(fi.Decl.Body, true) {
+		fn := calleeOf(info, call)
+		if fn == nil || fn.Pkg() == nil || fn.Pkg().Path() != "strconv" || fn.Name() != "ParseInt" {
+			continue
+		}
+		n++
+		// the enclosing case clause must test IsLiteralNumber; a preceding sibling `if strings.Contains*(v, K) { … return }` must cover . e E
+		var cc *ast.CaseClause
+		for p := pm[call]; p != nil; p = pm[p] {
+			if x, ok := p.(*ast.CaseClause); ok {
+				isNum := false
+				for _, e := range x.List {
+					if nodeHasCall(info, e, isCallTo(pSqlx, "", "IsLiteralNumber")) != nil {
+						isNum = true
+					}
+				}
+				if isNum {
+					cc = x
+					break
+				}
+			}
+		}
+		if cc == nil {
+			c.Check(rule, "specutil.ColumnDefault|ParseInt guarded", call.Pos(), true, "")
+			continue
+		}
+		covered := ""
+		for _, st := range cc.Body {
+			if st.Pos() > call.Pos() {
+				break
+			}
+			ifs, ok := st.(*ast.IfStmt)
+			if !ok || len(ifs.Body.List) == 0 {
+				continue
+			}
+			if _, returns := ifs.Body.List[len(ifs.Body.List)-1].(*ast.ReturnStmt); !returns {
+				continue
+			}
+			for _, f := range impliedFacts(ifs.Cond, true) {
+				g, ok := f.expr.(*ast.CallExpr)
+				if !ok || !f.val || len(g.Args) != 2 {
+					continue
+				}
+				gf := calleeOf(info, g)
+				if gf == nil || gf.Pkg() == nil || gf.Pkg().Path() != "strings" {
+					continue
+				}
+				if k, ok := stringConst(info, g.Args[1]); ok {
+					switch gf.Name() {
+					case "Contains":
+						if len(k) == 1 {
+							covered += k
+						}
+					case "ContainsAny":
+						covered += k
+					}
+				}
+			}
+		}
+		ok := strings.Contains(covered, ".") && strings.Contains(covered, "e") && strings.Contains(covered, "E")
+		c.Check(rule, "specutil.ColumnDefault|ParseInt reached only by integer literals", call.Pos(), ok, "ColumnDefault sends a number literal to strconv.ParseInt unless it contains one of %q: a literal with an exponent (DEFAULT 1e3) is a number for IsLiteralNumber but a syntax error for ParseInt, and marshalling the whole schema fails", covered)
+	}
+	if n == 0 {
+		c.Unresolved(rule, "strconv.ParseInt in specutil.ColumnDefault")
+	}
+}
